@@ -165,6 +165,54 @@ def h_get_instance(S, B):
     S.observe("raised", type(exc).__name__ if exc is not None else None)
 
 
+SERIALS = []
+
+
+class Counted:
+    """nothing but the daemon's tables refers to an instance between two calls"""
+
+    def __init__(self):
+        SERIALS.append(len(SERIALS) + 1)
+        self.serial = len(SERIALS)
+        self.calls = 0
+
+
+def h_lifetime(S, B):
+    """consecutive calls: the instance of a single / session class lives as long as its daemon / connection, although
+    the application keeps no reference to it between the calls"""
+    import gc
+    rig.reset(S)
+    del SERIALS[:]
+    mode = S.choice("mode", ["single", "session"])
+    with_creator = S.flag("with_creator")
+
+    class Clazz(Counted):
+        pass
+    Clazz._pyroInstancing = (mode, (lambda c: c()) if with_creator else None)
+    daemon = rig.make_daemon()
+    connA = rig.connection(rig.FakeSock("A"))
+    connB = rig.connection(rig.FakeSock("B"))
+    seen = []
+    for conn_name in B["CALLS"]:
+        inst = daemon._getInstance(Clazz, connA if conn_name == "A" else connB)
+        inst.calls += 1
+        seen.append((conn_name, inst.serial, inst.calls))
+        inst = None
+        gc.collect()
+    S.cover("lifetime:" + mode)
+    a = [(sn, c) for cn, sn, c in seen if cn == "A"]
+    b = [(sn, c) for cn, sn, c in seen if cn == "B"]
+    if mode == "single":
+        S.check("one-instance-serves-every-call-of-the-daemon", [sn for cn, sn, c in seen] == [1] * len(seen))
+        S.check("the-single-instance-keeps-its-state-between-calls", [c for cn, sn, c in seen] == list(range(1, len(seen) + 1)))
+        S.check("single-instance-created-once", len(SERIALS) == 1)
+    else:
+        S.check("one-instance-per-connection", len(set(sn for sn, c in a)) == 1 and len(set(sn for sn, c in b)) == 1 and a[0][0] != b[0][0])
+        S.check("the-session-instance-keeps-its-state-between-calls", [c for sn, c in a] == list(range(1, len(a) + 1)) and [c for sn, c in b] == list(range(1, len(b) + 1)))
+        S.check("session-instances-created-once-per-connection", len(SERIALS) == 2)
+    S.observe("seen", seen)
+
+
 def h_behavior(S, B):
     """the behavior decorator stores exactly (mode, creator) and refuses anything else"""
     mode = S.choice("mode", ["single", "session", "percall", "Single", "", "per call"])
@@ -200,6 +248,10 @@ INTERPRET_MODULES = ["harness.rig"]
 STUBS = rig.STUBS
 
 SPECS = [
+    Spec("lifetime", h_lifetime, {"quick": {"CALLS": ["A", "A", "B", "A", "B"]}, "thorough": {"CALLS": ["A", "B", "A", "A", "B", "B", "A"]}},
+         covers=["lifetime:single", "lifetime:session", "check:the-session-instance-keeps-its-state-between-calls"],
+         native_patch=env.native_env, reset=_reset,
+         desc="five (seven) consecutive _getInstance calls on two connections with a garbage collection between them and no reference to the instance kept by the caller: single and session instances survive and keep their state, one creation per daemon / per connection"),
     Spec("get_instance", h_get_instance,
          {"quick": {"SHAPES": ["Plain", "Sized", "Booled", "AllEqual"]}, "thorough": {"SHAPES": ["Plain", "Sized", "Booled", "AllEqual"]}},
          covers=["mode:single", "mode:session", "mode:percall", "mode:bogus", "check:single-reuses-the-instance",
